@@ -194,7 +194,11 @@ fn exec(c: &Value) -> R {
             }
             "shard_l1boundsum" => {
                 let m: Vec<u128> = c["m_s"].as_array().unwrap().iter().map(|x| x.as_str().unwrap().parse().unwrap()).collect();
-                okerr(Prio3::new_l1_bound_sum(2, 3, 2, 2).unwrap().shard(b"c16", &m, &[1; 16]))
+                // bound and length come from the case (default: max 3, len 2): bounds up to p - 1, where the norm of in-range
+                // elements can pass the modulus or the integer width
+                let max: u128 = c.get("max_s").and_then(|x| x.as_str()).map(|x| x.parse().unwrap()).unwrap_or(3);
+                let len: usize = c.get("len_s").and_then(|x| x.as_str()).map(|x| x.parse().unwrap()).unwrap_or(2);
+                okerr(Prio3::new_l1_bound_sum(2, max, len, 2).unwrap().shard(b"c16", &m, &[1; 16]))
             }
             "shard_prio2" => okerr(Prio2::new(4).unwrap().shard(b"c16", &vec![1u32; small(c, "mlen") as usize], &[1; 16])),
             "shard_poplar1" => {
